@@ -49,10 +49,24 @@ Definition val_enum (rec : node -> loc -> list (loc * hkind)) (v : node) (lc' : 
   if is_container v then rec v lc'
   else if o_values o && satb (key_val v) then [(lc', HVal)] else [].
 
+(* the leaf descendants of a node, as locations *)
+Fixpoint leaves (n : node) (lc : loc) {struct n} : list loc :=
+  match n with
+  | NSeq _ els => floop (fun e idx => leaves e (lc ++ [RIdx idx])%list) els 0
+  | NMap _ kvs => floop (fun kv (_ : nat) => leaves (snd kv) (lc ++ [key_ref (fst kv)])%list) kvs 0
+  | NSet _ els => floop (fun m (_ : nat) => [(lc ++ [member_ref m])%list]) els 0
+  | NLeaf _ _ => [lc]
+  end.
+
+(* a matched key: reported itself, or -- with expansion -- replaced by the
+   leaf descendants of its value *)
+Definition key_hit_enum (v : node) (lc' : loc) : list (loc * hkind) :=
+  if o_expand o then map (fun l => (l, HChild HKey)) (leaves v lc') else [(lc', HKey)].
+
 Definition entry_enum (rec : node -> loc -> list (loc * hkind)) (lc : loc) (kv : node * node)
   : list (loc * hkind) :=
   let lc' := (lc ++ [key_ref (fst kv)])%list in
-  if o_keys o && satb (key_val (fst kv)) then [(lc', HKey)]
+  if o_keys o && satb (key_val (fst kv)) then key_hit_enum (snd kv) lc'
   else val_enum rec (snd kv) lc'.
 
 Definition member_enum (lc : loc) (k : node) : list (loc * hkind) :=
@@ -156,10 +170,66 @@ Proof. unfold satb. intros ->. reflexivity. Qed.
 Lemma satb_false v : term_matches lit re_search tm v = Ok false -> satb v = false.
 Proof. unfold satb. intros ->. reflexivity. Qed.
 
-Lemma report_plain nd tmp lc kd seen :
-  o_expand o = false ->
-  report lit re_search mt tm sp o nd tmp lc kd seen = Ok ([mkhit tmp lc kd], seen).
-Proof. unfold report. intros ->. reflexivity. Qed.
+Lemma map_floop {A B C} (f : B -> C) (g : A -> nat -> list B) (l : list A) : forall idx,
+  map f (floop g l idx) = floop (fun a i => map f (g a i)) l idx.
+Proof. induction l; intros; simpl; auto. rewrite map_app, IHl. reflexivity. Qed.
+
+Lemma not_container_leaf' v : is_container v = false -> exists i x, v = NLeaf i x.
+Proof. destruct v; simpl; try discriminate. eauto. Qed.
+
+(* yield_children lists the leaf descendants *)
+Theorem yc_leaves n :
+  o_anchors o = false -> transparent n ->
+  forall bp lc kd seen r,
+    yield_children lit re_search mt tm sp o n bp lc kd seen = Ok r ->
+    map h_lk (fst r) = map (fun l => (l, HChild kd)) (leaves n lc).
+Proof.
+  intros Ha. induction n as [i v|i kvs IH|i els IH|i els IH] using node_ind'; intros Ht bp lc kd seen r E.
+  - simpl in E. inversion E; reflexivity.
+  - simpl in E. simpl leaves. rewrite map_floop.
+    eapply loop_floop; [|exact E].
+    intros kv Hin idx seen0 r0 Eb. cbv beta in Eb.
+    rewrite (skip_merged_off _ _ _ Ht) in Eb.
+    destruct (transparent_map _ _ _ Ht Hin) as [Tk Tv].
+    destruct (classify (fst kv) seen0 (o_kalias o) Ha Tk (or_introl eq_refl))
+      as [ka [s1 [Ek [Hk1 [Hk2 [Hk3 Hk4]]]]]].
+    rewrite Ek in Eb. simpl in Eb.
+    destruct (classify (snd kv) s1 (o_valias o) Ha Tv (or_intror eq_refl))
+      as [va [s2 [Ev [Hv1 [Hv2 [Hv3 Hv4]]]]]].
+    rewrite Ev in Eb. simpl in Eb. rewrite Hk3, Hv3 in Eb. simpl in Eb.
+    rewrite Forall_forall in IH. destruct (IH _ Hin) as [_ IHv].
+    destruct (is_container (snd kv)) eqn:Ec.
+    + eapply IHv; eauto.
+    + destruct (not_container_leaf' _ Ec) as [i0 [x Ex]]. rewrite Ex. inversion Eb; subst. reflexivity.
+  - simpl in E. simpl leaves. rewrite map_floop.
+    eapply loop_floop; [|exact E].
+    intros e Hin idx seen0 r0 Eb. cbv beta in Eb.
+    pose proof (transparent_seq _ _ _ Ht Hin) as Te.
+    destruct (classify e seen0 (o_valias o) Ha Te (or_intror eq_refl))
+      as [am [s1 [Ea [H1 [H2 [H3 H4]]]]]].
+    rewrite Ea in Eb. simpl in Eb. rewrite H3 in Eb.
+    rewrite Forall_forall in IH.
+    destruct (is_container e) eqn:Ec.
+    + eapply IH; eauto.
+    + destruct (not_container_leaf' _ Ec) as [i0 [x Ex]]. rewrite Ex. inversion Eb; subst. reflexivity.
+  - simpl in E. simpl leaves. rewrite map_floop.
+    eapply loop_floop; [|exact E].
+    intros k Hin idx seen0 r0 Eb. cbv beta in Eb.
+    pose proof (transparent_set _ _ _ Ht Hin) as Tk.
+    destruct (classify k seen0 (o_kalias o) Ha Tk (or_introl eq_refl))
+      as [ka [s1 [Ek [H1 [H2 [H3 H4]]]]]].
+    rewrite Ek in Eb. simpl in Eb. rewrite H3 in Eb. inversion Eb; subst. reflexivity.
+Qed.
+
+Lemma report_enum nd tmp lc seen r :
+  o_anchors o = false -> transparent nd ->
+  report lit re_search mt tm sp o nd tmp lc HKey seen = Ok r ->
+  map h_lk (fst r) = key_hit_enum nd lc.
+Proof.
+  intros Ha Ht. unfold report, key_hit_enum. destruct (o_expand o).
+  - apply yc_leaves; auto.
+  - intros E. inversion E; reflexivity.
+Qed.
 
 (* the shared value part *)
 Lemma value_part_enum rec g am v tmp lc' seen r :
@@ -192,12 +262,12 @@ Lemma sfp_seq_eq i els bp lc seen :
 Proof. reflexivity. Qed.
 
 Theorem sfp_enum n :
-  o_anchors o = false -> o_expand o = false -> transparent n ->
+  o_anchors o = false -> transparent n ->
   forall bp lc seen r,
     search_for_paths lit re_search mt aa tm sp o n bp lc seen = Ok r ->
     map h_lk (fst r) = enum n lc.
 Proof.
-  intros Ha He. induction n as [i v|i kvs IH|i els IH|i els IH] using node_ind'; intros Ht bp lc seen r E.
+  intros Ha. induction n as [i v|i kvs IH|i els IH|i els IH] using node_ind'; intros Ht bp lc seen r E.
   - simpl in E. inversion E; reflexivity.
   - (* mapping *)
     simpl in E.
@@ -220,8 +290,9 @@ Proof.
     destruct (o_keys o); simpl in *.
     + rewrite Hk1 in Eb.
       destruct (term_matches lit re_search tm (key_val (fst kv))) as [[|]| |] eqn:Em; simpl in Eb; try discriminate.
-      * rewrite (report_plain _ _ _ _ _ He) in Eb. simpl in Eb. inversion Eb; subst; simpl.
-        rewrite (satb_true _ Em). reflexivity.
+      * rewrite (satb_true _ Em).
+        destruct (report lit re_search mt tm sp o (snd kv) _ _ HKey s2) as [hs| |] eqn:Er; simpl in Eb; try discriminate.
+        inversion Eb; subst. eapply report_enum; eauto.
       * rewrite (satb_false _ Em).
         eapply value_part_enum; eauto.
     + eapply value_part_enum; eauto.
